@@ -60,8 +60,8 @@ def lex : Bytes → List Tok
   | c :: rest => .lit c :: lex rest
   | [] => []
 
-/-- isspace(3) in the C locale, as wildmatch's [:space:] -/
-def isSpace (c : UInt8) : Bool := c = 32 || (9 ≤ c && c ≤ 13)
+/-- Git's own `isspace` (sane_ctype in git-compat-util.h): blank, TAB, LF, CR — not VT or FF -/
+def isSpace (c : UInt8) : Bool := c = 32 || c = 9 || c = 10 || c = 13
 
 /-- matching a token list without wildcards against a file name (one path component) -/
 def matchLit : List Tok → Bytes → Bool
